@@ -240,8 +240,15 @@ func HopByHop(h http.Header) map[string]bool {
 
 // Merge304 returns the header set after freshening stored with a 304 (RFC 9111 §3.2, §4.3.4):
 // every field of the 304 replaces the stored one, except Content-Length and hop-by-hop fields.
-func Merge304(stored, h304 http.Header) http.Header {
+//
+// respNs is the instant the 304 was received: a recipient with a clock records it as the Date of
+// a message that lacks a (valid) one before using the message (RFC 9110 §6.6.1).
+func Merge304(stored, h304 http.Header, respNs int64) http.Header {
 	out := stored.Clone()
+	if _, ok := HTTPDate(h304.Get("Date")); !ok {
+		h304 = h304.Clone()
+		h304.Set("Date", FormatDate(floorSec(respNs)))
+	}
 	hop := HopByHop(h304)
 	for k, vs := range h304 {
 		if k == "Content-Length" || hop[k] {
